@@ -54,28 +54,57 @@ def tmp_path_rule(ctx, F):
 
 
 def r1(ctx, F):
+    import tables
     b = work_body(F, 'incremental::deliver_local', ['tokio::fs::rename', 'std::fs::rename'])
     if b is None:
         ctx.missing('C09.R1', 'incremental::deliver_local')
     fl = flow_of(b)
-    copies = fl.calls(lambda c: c in ('tokio::fs::copy', 'std::fs::copy'))
+    cfg = fl.cfg
     renames = fl.calls(lambda c: c in ('tokio::fs::rename', 'std::fs::rename'))
-    if len(copies) != 1 or len(renames) != 1:
-        ctx.missing('C09.R1', 'deliver_local: one copy and one rename (found %d/%d)' % (len(copies), len(renames)))
-    cb, ct = copies[0]
+    creators = fl.calls(lambda c: c in tables.CONTENT_CREATORS and not c.endswith('OpenOptions::open'))
+    if len(renames) != 1 or not creators:
+        ctx.missing('C09.R1', 'deliver_local: content creation and one rename (found %d/%d)' % (len(creators), len(renames)))
     rb, rt = renames[0]
-    src_o = fl.origins(ct['args'][0])
+    stg = lambda op: is_staging(fl, op) or is_staging_name(F, fl, op)
+    # what fills the staging file: fs::copy(src, tmp), or File::create(tmp) followed by stream writes
+    writes = []
+    staged = stg(rt['args'][0])
+    src_o = set()
+    for cb, ct in creators:
+        c = callee(ct)
+        pop = ct['args'][tables.CONTENT_CREATORS[c]]
+        staged = staged and stg(pop) and {o.bb for o in fl.origins(pop)} == {o.bb for o in fl.origins(rt['args'][0])}
+        if c.endswith('fs::copy'):
+            writes.append(cb)
+            src_o |= fl.origins(ct['args'][0])
+        else:
+            writes.append(cb)
+            for wb, wt in fl.calls(lambda c2: c2 in ('std::io::copy', 'std::io::Write::write_all', 'std::io::Write::write', 'tokio::io::copy', 'tokio::io::AsyncWriteExt::write_all')):
+                writes.append(wb)
+            for ob, ot in fl.calls(lambda c2: c2 in ('std::fs::File::open', 'tokio::fs::File::open')):
+                src_o |= fl.origins(ot['args'][0])
     dst_o = fl.origins(rt['args'][1])
-    # roles by use, not by name: src = the parameter that is copied from, dst = the parameter that is renamed onto
+    # roles by use, not by name: src = the parameter that is read, dst = the parameter that is renamed onto
     src_s, dst_s = param_slots(F, b, src_o), param_slots(F, b, dst_o)
-    staged = is_staging(fl, ct['args'][1]) and is_staging(fl, rt['args'][0])
-    same_tmp = {(o.bb) for o in fl.origins(ct['args'][1])} == {(o.bb) for o in fl.origins(rt['args'][0])}
-    tmp_of_dst = bool(dst_s) and all(param_slots(F, b, call_arg_origins(fl, o.bb, 0)) == dst_s for o in fl.origins(rt['args'][0]))
+    tmp_of_dst = bool(dst_s)
+    for o in fl.origins(rt['args'][0]):
+        if o.kind == 'call' and o.bb is not None and o.key == STAGING_FN:
+            tmp_of_dst = tmp_of_dst and param_slots(F, b, call_arg_origins(fl, o.bb, 0)) == dst_s
     roles = bool(src_s) and bool(dst_s) and len(src_s) == 1 and len(dst_s) == 1 and src_s != dst_s
-    ctx.check(staged and same_tmp and tmp_of_dst and roles, 'C09.R1', 'deliver_local:staging',
-              'copy(src, tmp_path(dst)); rename(that tmp, dst)', 'deliver_local does not stage into tmp_path(dst) and rename that file onto dst', term_loc(b, cb))
-    ctx.check(fl.guarded_by(rb, cb, 'Ok'), 'C09.R1', 'deliver_local:copy-ok-guards-rename', 'rename only under the Ok edge of the copy',
+    ctx.check(staged and tmp_of_dst and roles, 'C09.R1', 'deliver_local:staging',
+              'content goes to tmp_path(dst) only; rename(that tmp, dst)', 'deliver_local does not stage into tmp_path(dst) and rename that file onto dst', term_loc(b, creators[0][0]))
+    guarded = any(fl.guarded_by(rb, wb, 'Ok') for wb in writes)
+    for wb in writes:
+        for (s_, t_, lab) in fl.outcomes(wb).get('Err', set()):
+            if rb in cfg.reach(t_):
+                guarded = False
+    ctx.check(guarded, 'C09.R1', 'deliver_local:copy-ok-guards-rename', 'rename only under the Ok edges of the writes that fill the staging file',
               'deliver_local renames the staging file onto the destination even if the copy failed or was partial', term_loc(b, rb))
+    bw = buffered_writer_flushed_before(fl, rb)
+    if bw is not None:
+        ctx.check(bw, 'C09.R1', 'deliver_local:buffer-flushed-before-rename', 'the buffered writer of the staging file is flushed (flush / into_inner Ok) before the rename',
+                  'deliver_local fills the staging file through a BufWriter and renames it onto the destination without flushing: what is still buffered is written when the '
+                  'writer is dropped, after the rename - a kill in between leaves a truncated file at the destination path', term_loc(b, rb))
 
 
 def r2(ctx, F):
